@@ -284,6 +284,35 @@ def deleted_keyspace_eviction(variant):
         shutil.rmtree(wd, ignore_errors=True)
 
 
+def sealing_race(variant):
+    """a writer is inside its critical section (journal record appended, memtable not yet touched, journal lock held) when
+    the flush tick that seals the > 64 MB journal arrives: the eviction watermarks must be taken after that writer has
+    finished (under the journal lock), otherwise the sealed journal carries no watermark for the writer's keyspace, is
+    unlinked once the other keyspace is flushed, and a crash loses the acknowledged write"""
+    kind = variant
+    w = {"put": "put h1 6b01 b1", "batch": "batch - h1:p:6b01:b1 h1:p:6b02:b2"}[kind]
+    site = "ks.after_journal" if kind == "put" else "batch.after_seqno"
+    L = ["open plain jcomp=none", "ks h0 alpha mt=400000000", "ks h1 beta mt=400000000", "put h0 6d00 00", "bigfill h0 66 1024 t0",
+         "rotate h0", "pausepoint %s 1 hold" % site, "thread w %s &" % w, "waitpause %s" % site, "thread s step &", "sleep 400",
+         "pausepoint %s 1 off" % site, "release %s" % site, "thread w has - h1 00", "thread s has - h1 00", "drain",
+         "put h0 6d01 01", "rotate h0", "drain", "journals", "exit 0"]
+    prog = "\n".join(L) + "\n"
+    wd = workdir()
+    try:
+        db = os.path.join(wd, "db")
+        o, raw, rc = run_fjv(prog, dbdir=db, timeout=600)
+        if rc == -99 or any(v == "err timeout" for v in o.values()) or o.get(8) != "ok":
+            return None                   # cut off: nothing to judge
+        o2, raw2, rc2 = run_fjv("open plain\nks h1 beta\nget - h1 6b01\njournals\n", dbdir=db, timeout=300)
+        if o2.get(3) != "some b1":
+            return ("a writer to keyspace beta was inside its critical section when the flush tick sealed the journal; its acknowledged "
+                    "write %s is gone after a crash: open %s, get = %s (journal files before the crash: %s)"
+                    % (w, o2.get(1), o2.get(3), o.get(len(L) - 1)), prog)
+        return None
+    finally:
+        shutil.rmtree(wd, ignore_errors=True)
+
+
 DKE = [(ns, v) for ns in (("alpha", "beta", "gamma"), ("left", "right", "mid"), ("k1", "k2", "k3"), ("zeta", "eta", "theta")) for v in (1, 2)]
 
 
@@ -293,6 +322,9 @@ def run(rep, tier, seed, build):
     mc = pmap(mgr_conformance, [(i, seed) for i in range(4 if tier == "quick" else 40)], workers=4)
     dk = [x for x in pmap(deleted_keyspace_eviction, DKE[:4] if tier == "quick" else DKE, workers=4) if x]
     for msg, prog in dk[:1]:
+        rep.violation("# C10: %s\n%s" % (msg, prog))
+    sr = [x for x in pmap(sealing_race, ["put", "batch"], workers=2) if x]
+    for msg, prog in sr[:1]:
         rep.violation("# C10: %s\n%s" % (msg, prog))
     n = 16 if tier == "quick" else 120
     results = pmap(eviction_workload, [(i, seed, tier) for i in range(n)], workers=6)
@@ -308,7 +340,7 @@ def run(rep, tier, seed, build):
                              "write, journal_count returns to 1 after everything is flushed; non-trivial = at least one journal unlinked",
                         samples=[r_["sample"] for r_ in results if r_.get("sample")][:3], workloads=n,
                         journal_unlinks=sum(len(r_["unlinks"]) for r_ in results), incomplete_runs=sum(1 for r_ in results if r_.get("incomplete")) + sum(1 for x in mc if x.get("incomplete")), disagreements_checked=len(bad) + len([x for x in mc if x["diffs"]]),
-                        deleted_keyspace_scenarios=4 if tier == "quick" else len(DKE), model_conformance_workloads=len(mc), model_conformance_steps=sum(x["steps"] for x in mc),
+                        deleted_keyspace_scenarios=4 if tier == "quick" else len(DKE), sealing_race_scenarios=2, model_conformance_workloads=len(mc), model_conformance_steps=sum(x["steps"] for x in mc),
                         model_conformance_seals=sum(x["seals"] for x in mc), model_conformance_sample=mc[0]["counts"] if mc else [],
                         obligations=obl, discharged=dis if not pproblems else min(dis, obl - 1),
                         checker_cmd="cd coq && make props/C10.vo (coqc 8.16.1) + Print Assumptions audit", trusted_base=TRUSTED_BASE,
